@@ -13,7 +13,7 @@
  *           rep: P | J (retag, z = 1)  p<z> (x*z, y*z, z; PROJC)  j<z> (x*z^2, y*z^3, z; JACOB)
  *   scalar  hex with optional '-'
  *
- * Event: {"op","i", p,w,fd,mont (field header), "ca","cb" raw a,b, "n" order (bn), "endom","fpb","wd","dep","dgb",
+ * Event: {"op","i", p,w,fd,mont (field header), "ca","cb" raw a,b, "n" order (bn), "endom","add","fpb","wd","dep","dgb",
  *         "al", inputs "P","Q" raw points / "k","m" bn / "dg" digit / "ps","ks" lists (before the call),
  *         outputs "R" raw point / "ret" (after), "err","code","unch"}
  */
@@ -29,6 +29,55 @@ static dig_t LD[LOT_MAX];
 
 static char cur_curve[8192];
 static int cur_ok = 0;
+
+/* ------------------------------------------------------------ event buffering
+ * An event is assembled in a memory stream and appended to the trace only when complete, so an
+ * abnormal end inside the library call cannot leave half a line behind.  On a fatal signal inside
+ * a call the inputs logged so far are written as an event of the SAME op with "crash":<signal>
+ * (the spec judges it: never accepted), followed by a short {"op":"restart"} line that tells the
+ * orchestrator where to resume. */
+static FILE *real_out;
+static char *mbuf;
+static size_t mlen, safe_len;
+static volatile int in_event;
+
+static void ev_begin(const char *op) {
+	mbuf = NULL; mlen = 0; safe_len = 0;
+	vh_out = open_memstream(&mbuf, &mlen);
+	if (!vh_out) { perror("open_memstream"); exit(2); }
+	in_event = 1;
+	vh_begin(op);
+}
+static void ev_end(void) {
+	vh_end();
+	fclose(vh_out);
+	in_event = 0;
+	fwrite(mbuf, 1, mlen, real_out);
+	fflush(real_out);
+	free(mbuf);
+	vh_out = real_out;
+}
+/* the inputs are complete: remember how much of the event may be published if the call dies */
+#define MARK() do { fflush(vh_out); safe_len = mlen; } while (0)
+
+static void ep_fatal(int sig) {
+	char buf[200];
+	int n;
+	const char *what = (sig == SIGALRM) ? "TIMEOUT" : "CRASH";
+	if (in_event && safe_len > 0) {
+		if (write(vh_outfd, mbuf, safe_len) < 0) {}
+		n = snprintf(buf, sizeof(buf), ",\"crash\":%d,\"err\":0,\"code\":0,\"unch\":false}\n", sig);
+		if (write(vh_outfd, buf, n) < 0) {}
+		what = "restart";
+	}
+	n = snprintf(buf, sizeof(buf), "{\"op\":\"%s\",\"i\":%ld,\"sig\":%d}\n", what, (long)vh_case, sig);
+	if (write(vh_outfd, buf, n) < 0) {}
+	_exit(sig == SIGALRM ? 3 : 4);
+}
+static void ep_install(void) {
+	signal(SIGSEGV, ep_fatal); signal(SIGBUS, ep_fatal); signal(SIGFPE, ep_fatal);
+	signal(SIGABRT, ep_fatal); signal(SIGILL, ep_fatal); signal(SIGALRM, ep_fatal);
+}
 
 /* ------------------------------------------------------------ curve */
 static int set_tiny(char *spec) {
@@ -129,13 +178,14 @@ static void set_point(ep_t p, char *tok) {
 
 /* ------------------------------------------------------------ events */
 static void hdr(const char *op, int al) {
-	vh_begin(op);
+	ev_begin(op);
 	vh_fp_hdr();
 	vh_fp("ca", ep_curve_get_a());
 	vh_fp("cb", ep_curve_get_b());
 	vh_bn("n", N);
 	vh_bn("h", H);
 	vh_int("endom", ep_curve_is_endom());
+	vh_int("add", (long)EP_ADD);
 	vh_int("fpb", (long)RLC_FP_BITS);
 	vh_int("wd", (long)RLC_WIDTH);
 	vh_int("dep", (long)RLC_DEPTH);
@@ -144,10 +194,11 @@ static void hdr(const char *op, int al) {
 }
 
 static void fin(int err, int unch) {
+	vh_int("crash", 0);
 	vh_int("err", err);
 	vh_int("code", vh_code());
 	vh_bool("unch", unch);
-	vh_end();
+	ev_end();
 }
 
 /* r = f(p): al 0 none, 1 r == p */
@@ -155,13 +206,14 @@ typedef void (*un_f)(ep_t, const ep_t);
 static void do_un(const char *op, un_f f, int al) {
 	int err, unch = 1;
 	ep_st *pp = P, *pr = R;
+	char stale[] = "m5/p2"; /* stale output content */
 	set_point(P, vh_tok[3]);
 	if (al == 1) pr = pp;
 	ep_copy(P0, P);
-	set_point(R, "m5"); /* stale output content */
-	if (al == 1) ep_copy(P, P0);
+	set_point(R, stale);
 	hdr(op, al);
 	vh_ep("P", pp);
+	MARK();
 	VH_TRY(err, f(pr, pp));
 	vh_ep("R", pr);
 	if (pr != pp) unch &= vh_ep_same(P, P0);
@@ -183,6 +235,7 @@ static void do_bin(const char *op, bin_f f, int al) {
 	set_point(R, stale);
 	hdr(op, al);
 	vh_ep("P", pp); vh_ep("Q", pq);
+	MARK();
 	VH_TRY(err, f(pr, pp, pq));
 	vh_ep("R", pr);
 	if (pr != pp) unch &= vh_ep_same(P, P0);
@@ -199,6 +252,7 @@ static void do_query(const char *op, int which) {
 	hdr(op, 0);
 	vh_ep("P", P);
 	if (which == 0) vh_ep("Q", Q);
+	MARK();
 	switch (which) {
 		case 0: VH_TRY(err, ret = ep_cmp(P, Q)); break;
 		case 1: VH_TRY(err, ret = ep_on_curve(P)); break;
@@ -223,6 +277,7 @@ static void do_mul(const char *op, mul_f f, int al) {
 	set_point(R, stale);
 	hdr(op, al);
 	vh_ep("P", pp); vh_bn("k", K);
+	MARK();
 	VH_TRY(err, f(pr, pp, K));
 	vh_ep("R", pr);
 	if (pr != pp) unch &= vh_ep_same(P, P0);
@@ -239,6 +294,7 @@ static void do_mul_gen(const char *op) {
 	set_point(R, stale);
 	hdr(op, 0);
 	vh_ep("P", P); vh_bn("k", K);
+	MARK();
 	VH_TRY(err, ep_mul_gen(R, K));
 	vh_ep("R", R);
 	unch &= vh_bn_same(K, K0);
@@ -256,6 +312,7 @@ static void do_mul_dig(const char *op, int al) {
 	set_point(R, stale);
 	hdr(op, al);
 	vh_ep("P", pp); vh_dig("dg", d);
+	MARK();
 	VH_TRY(err, ep_mul_dig(pr, pp, d));
 	vh_ep("R", pr);
 	if (pr != pp) unch &= vh_ep_same(P, P0);
@@ -282,6 +339,7 @@ static void do_fix(const char *op, pre_f pre, fix_f fix) {
 	hdr(op, 0);
 	vh_ep("P", P); vh_bn("k", K);
 	vh_int("perr", err);
+	MARK();
 	if (!err) VH_TRY(err2, fix(R, (const ep_t *)TAB, K));
 	vh_ep("R", R);
 	unch &= vh_ep_same(P, P0) && vh_bn_same(K, K0);
@@ -305,6 +363,7 @@ static void do_sim(const char *op, sim_f f, int al) {
 	set_point(R, stale);
 	hdr(op, al);
 	vh_ep("P", pp); vh_bn("k", K); vh_ep("Q", pq); vh_bn("m", M);
+	MARK();
 	VH_TRY(err, f(pr, pp, K, pq, M));
 	vh_ep("R", pr);
 	if (pr != pp) unch &= vh_ep_same(P, P0);
@@ -327,6 +386,7 @@ static void do_sim_gen(const char *op, int al) {
 	set_point(R, stale);
 	hdr(op, al);
 	vh_ep("P", P); vh_bn("k", K); vh_ep("Q", pq); vh_bn("m", M);
+	MARK();
 	VH_TRY(err, ep_mul_sim_gen(pr, K, pq, M));
 	vh_ep("R", pr);
 	if (pr != pq) unch &= vh_ep_same(Q, Q0);
@@ -356,6 +416,7 @@ static void do_lot(const char *op, int dig) {
 		if (dig) { bn_set_dig(K, LD[i]); vh_bn_raw(K); } else vh_bn_raw(LK[i]);
 	}
 	fputc(']', vh_out);
+	MARK();
 	if (dig) VH_TRY(err, ep_mul_sim_dig(R, (const ep_t *)LP, LD, n));
 	else VH_TRY(err, ep_mul_sim_lot(R, (const ep_t *)LP, (const bn_t *)LK, n));
 	vh_ep("R", R);
@@ -371,7 +432,7 @@ static void do_probe(void) {
 	int ok;
 	cur_curve[0] = 0;
 	ok = set_curve(vh_tok[1]);
-	vh_begin("curve_probe");
+	ev_begin("curve_probe");
 	vh_str("curve", vh_tok[1]);
 	vh_int("ok", ok);
 	if (ok) {
@@ -386,7 +447,7 @@ static void do_probe(void) {
 		vh_int("dgb", (long)RLC_DIG);
 		vh_int("add", (long)EP_ADD);
 	}
-	vh_end();
+	ev_end();
 }
 
 static void w_add(ep_t r, const ep_t p, const ep_t q) { ep_add(r, p, q); }
@@ -402,7 +463,7 @@ static int run_case(void) {
 #define OP(n) (strcmp(op, n) == 0)
 	if (OP("curve_probe")) { do_probe(); return 1; }
 	if (!set_curve(vh_tok[1])) {
-		vh_begin("BADCURVE"); vh_str("curve", vh_tok[1]); vh_end();
+		ev_begin("BADCURVE"); vh_str("curve", vh_tok[1]); ev_end();
 		return 1;
 	}
 	if (OP("ep_neg")) do_un(op, ep_neg, al);
@@ -448,6 +509,8 @@ int main(int argc, char **argv) {
 	long start, idx = 0;
 	int i;
 	FILE *in = vh_open(argc, argv, &start);
+	real_out = vh_out;
+	ep_install();
 	if (core_init() != RLC_OK) return 2;
 	ep_null(P); ep_null(Q); ep_null(R); ep_null(P0); ep_null(Q0); ep_null(T); ep_null(G);
 	ep_new(P); ep_new(Q); ep_new(R); ep_new(P0); ep_new(Q0); ep_new(T); ep_new(G);
@@ -465,7 +528,7 @@ int main(int argc, char **argv) {
 		if (!run_case()) { fprintf(stderr, "unknown op %s\n", vh_tok[0]); return 2; }
 		alarm(0);
 	}
-	fclose(vh_out);
+	fclose(real_out);
 	core_clean();
 	return 0;
 }
